@@ -61,10 +61,13 @@ func (s *State) assume(t string) {
 	if t == "true" || t == "" {
 		return
 	}
-	s.pc = append(s.pc, t)
 	if s.lits == nil {
 		s.lits = map[string]bool{}
 	}
+	if s.lits[t] {
+		return // already assumed on this path
+	}
+	s.pc = append(s.pc, t)
 	s.lits[t] = true
 }
 
